@@ -14,7 +14,7 @@ Definition measure (st : ast) (sel : pod -> bool) : Z :=
 
 (* unavailable or being migrated, within one workload *)
 Definition unavail (st : ast) (sel : pod -> bool) : Z :=
-  countb (fun v => sel v && p_exists v && (negb (p_ready v) || has_job true st v)) (a_pods st).
+  countb (fun v => sel v && p_exists v && (negb (p_avail v) || has_job true st v)) (a_pods st).
 
 Definition sel_all (v : pod) : bool := true.
 Definition sel_node (k : Z) (v : pod) : bool := p_node v =? k.
@@ -123,6 +123,7 @@ Definition env_step (st : ast) (o : op) : ast :=
   match o with
   | OSetReady p b => upd_pod st p (set_ready b)
   | ODeletePod p => upd_pod st p delete_pod
+  | OSetPodState p v => upd_pod st p (set_pod_state v)
   | _ => st
   end.
 
